@@ -342,6 +342,22 @@ func runC01(ctx *Ctx) {
 	// (fuzz), and stage by stage against the model whose totality theorem (filters_total) covers
 	// the index arithmetic of SimilarSiblingContent; a panic of the real filters is a violation
 	fl := newCorr("filters")
+	tr := newCorr("textrender")
+	for i := 0; i < ctx.pick(150, 6000); i++ {
+		// the rendering of Text elements (theorem text_render_total is about its model): the real
+		// Text.GenerateOutput against the model on article-like pages; a panic of the real code
+		// is a violation
+		src := newPageGen(newRng(ctx.Seed, fmt.Sprintf("C01/tr/%d", i))).Page(6, "t")
+		func() {
+			defer func() {
+				if e := recover(); e != nil {
+					rep.violate(map[string]string{"clause": "panic", "panic_site": "text-render", "root": "document"}, fmt.Sprintf("panic while rendering the document: %v", e), map[string]interface{}{"html": src, "kind": "document"})
+				}
+			}()
+			addRenderCases(tr, nil, rep, src, pageURL, map[string]interface{}{"html": src, "kind": "document"}, 6)
+		}()
+	}
+	tr.run(ctx)
 	for i := 0; i < ctx.pick(300, 20000); i++ {
 		src := newPageGen(newRng(ctx.Seed, fmt.Sprintf("C01/fs/%d", i))).FilterStressPage()
 		o := optSpec{URL: "http://example.com/dir/story"}
